@@ -63,7 +63,8 @@ func (b c07BankMsg) Send(ctx context.Context, msg *banktypes.MsgSend) (*banktype
 // gas meter that records what was charged under which descriptor
 type c07Meter struct {
 	storetypes.GasMeter
-	hook *uint64
+	hook  *uint64
+	marks *[]uint64 // cumulative consumption after every charge
 }
 
 func (m c07Meter) ConsumeGas(amount storetypes.Gas, descriptor string) {
@@ -71,12 +72,14 @@ func (m c07Meter) ConsumeGas(amount storetypes.Gas, descriptor string) {
 		*m.hook += amount
 	}
 	m.GasMeter.ConsumeGas(amount, descriptor)
+	*m.marks = append(*m.marks, m.GasMeter.GasConsumed())
 }
 
 type c07World struct {
 	w              *world.L2
 	f              *world.Faults
 	limits         []uint64
+	marks          []uint64
 	starts         map[string]sdk.Context
 	setupViolation *engine.Violation
 }
@@ -118,7 +121,7 @@ type c07Input struct {
 	Amount   string
 	Denom    string // "A" | "B"
 	HookGas  string // "0" | "tight" | "default"
-	OuterGas string // "infinite" | "finite"
+	OuterGas string // "infinite" | "finite" | "limit=<n>" (the gas-limit sweep)
 	Payload  string
 }
 
@@ -391,8 +394,14 @@ func (cw *c07World) exec(in c07Input, plan map[int]string, wantPrefix []string) 
 	var base storetypes.GasMeter = storetypes.NewInfiniteGasMeter()
 	if in.OuterGas == "finite" {
 		base = storetypes.NewGasMeter(10_000_000 + p.HookMaxGas)
+	} else if strings.HasPrefix(in.OuterGas, "limit=") {
+		n, err := strconv.ParseUint(in.OuterGas[6:], 10, 64)
+		if err != nil {
+			panic(err)
+		}
+		base = storetypes.NewGasMeter(n)
 	}
-	ctx = ctx.WithGasMeter(c07Meter{base, &hookCharged})
+	ctx = ctx.WithGasMeter(storetypes.NewInfiniteGasMeter()) // observations and set-up are not the transaction's
 	denom := c07DenA
 	baseDenom := "uxx"
 	if in.Denom == "B" {
@@ -411,7 +420,8 @@ func (cw *c07World) exec(in c07Input, plan map[int]string, wantPrefix []string) 
 	d0 := cw.w.Digest(ctx)
 	cw.limits = cw.limits[:0]
 	cw.f.Reset(plan)
-	res := cw.w.Deliver(ctx, msg)
+	cw.marks = cw.marks[:0]
+	res := cw.w.Deliver(ctx.WithGasMeter(c07Meter{base, &hookCharged, &cw.marks}), msg)
 	obs.calls = append([]string{}, cw.f.Calls...)
 	obs.hit = append([]string{}, cw.f.Hit...)
 	cw.f.Reset(nil)
@@ -435,6 +445,14 @@ func (cw *c07World) exec(in c07Input, plan map[int]string, wantPrefix []string) 
 	after := cw.snap(ctx, rcpt, denom)
 	if !res.OK() {
 		obs.outcome = "handler-error"
+		if len(obs.hit) == 0 && strings.HasPrefix(in.OuterGas, "limit=") && res.OutOfGas {
+			// a transaction gas limit below what the handler needs: the transaction fails as a whole
+			if cw.w.Digest(ctx) != d0 {
+				return obs, viol("failed-finalization-is-atomic", "%s: out of gas but state changed", label)
+			}
+			obs.outcome = "out-of-gas"
+			return obs, nil
+		}
 		if len(obs.hit) == 0 && in.Rcpt == "empty" && cw.w.Digest(ctx) == d0 {
 			obs.outcome = "refused-what-l1-cannot-emit"
 			return obs, nil
@@ -590,7 +608,7 @@ func c07Run(rc *engine.RunCtx) *engine.Result {
 	var mu sync.Mutex
 	outcomes := map[string]int{}
 	sites := map[string]int{}
-	var execs, faultRuns, points atomic.Int64
+	var execs, faultRuns, points, gasRuns atomic.Int64
 	maxDev := 1
 	if rc.Thorough() {
 		maxDev = 2
@@ -641,6 +659,25 @@ func c07Run(rc *engine.RunCtx) *engine.Result {
 				if v != nil {
 					report(v, in, nil)
 					continue
+				}
+				if in.OuterGas == "infinite" && (rc.Thorough() || (in.Start == "fresh" && in.Denom == "A" && in.HookGas == "default" && in.Amount == "1")) {
+					// gas-limit sweep: the same deposit under every transaction gas limit at which the handler
+					// can run out of gas — the recovers around the mint and the hook must not turn an exhausted
+					// *transaction* meter into a half-processed deposit
+					for _, lim := range c18Limits(append([]uint64{}, cw.marks...)) {
+						lin := in
+						lin.OuterGas = fmt.Sprintf("limit=%d", lim)
+						o3, v3 := cw.exec(lin, nil, nil)
+						execs.Add(1)
+						gasRuns.Add(1)
+						mu.Lock()
+						outcomes["gas-limit→"+o3.outcome]++
+						mu.Unlock()
+						if v3 != nil {
+							report(v3, lin, nil)
+							break
+						}
+					}
 				}
 				if !isFaulted[in] {
 					continue
@@ -719,6 +756,8 @@ func c07Run(rc *engine.RunCtx) *engine.Result {
 	res.Coverage["evaluations"] = execs.Load()
 	res.Coverage["distinct_nontrivial"] = int64(len(full))
 	res.Coverage["rule"] = "states = distinct deposit inputs (start state × recipient × amount × denom × HookMaxGas × outer meter × hook payload); transitions = executions of the real FinalizeTokenDeposit handler, one without faults per input plus one per (keeper-call index, fault kind) up to the deviation bound"
+	res.Coverage["gas_limit_runs"] = gasRuns.Load()
+	res.Coverage["gas_limit_sweep"] = "for the cumulative gas m after every single charge of the unlimited run, the same deposit under the transaction gas limit m-1 and under the total; quick: start=fresh, new denom, default hook gas, amount 1, every recipient and payload; thorough: every input"
 	res.Coverage["fault_runs"] = faultRuns.Load()
 	res.Coverage["fault_points"] = points.Load()
 	res.Coverage["deviation_bound"] = maxDev
